@@ -31,6 +31,15 @@ extern void v_bug(void);
 
 void v_comsgFatal(void) { g_reported = 1; __CPROVER_assume(0); }
 void v_comsgError(void) { g_reported = 1; }
+
+/* ---- closing: the contract of file.c:fileClose (enforced on the real text in file_h.c, job file.fileClose.*):
+ *      close once; a pending stream error or a failing close goes to the error handler (reported, no return) */
+void fileClose(FILE *f, FileName fn)
+{
+	int bad = ferror(f) != 0;
+	if (fclose(f) != 0) bad = 1;
+	if (bad) { g_reported = 1; __CPROVER_assume(0); }
+}
 void v_bug(void)        { g_diag = 1; __CPROVER_assume(0); }	/* visible abort, does not return */
 void _do_assert(char *str, char *file, int line) { g_diag = 1; __CPROVER_assume(0); }
 
